@@ -127,9 +127,11 @@ impl StepOracle for C07Oracle {
                         return Verdict::Fail(format!("step {}: receiver {}'s balance of token {} decreased by {}", cx.index, account, token, -d));
                     }
                 }
-                Change::Cw20Allowance { token, owner, spender } => {
+                Change::Cw20Allowance { owner, .. } => {
+                    // the statement speaks of balances; a consumed allowance always shows up as a balance
+                    // change of its owner, which is judged above.  Observed only.
                     if *owner != sender {
-                        return Verdict::Fail(format!("step {}: allowance of {} toward {} on token {} changed in a transaction sent by {}", cx.index, owner, spender, token, sender));
+                        classes.push("c:third-party-allowance-changed");
                     }
                 }
                 _ => {}
@@ -190,7 +192,7 @@ pub fn suites() -> Vec<Suite> {
             head_len: HEAD_LEN,
             op_len: OP_LEN,
             max_ops: 30,
-            quick_cases: 5_000,
+            quick_cases: 20_000,
             thorough_cases: 400_000,
             run,
             direct: Some(direct_with::<C07Oracle>),
@@ -202,7 +204,7 @@ pub fn suites() -> Vec<Suite> {
             head_len: HEAD_LEN,
             op_len: OP_LEN,
             max_ops: 24,
-            quick_cases: 2_500,
+            quick_cases: 8_000,
             thorough_cases: 200_000,
             run: run_routes,
             direct: Some(direct_with::<C07Oracle>),
@@ -211,7 +213,7 @@ pub fn suites() -> Vec<Suite> {
     ]
 }
 
-pub const RULE: &str = "case = world + history (all operation kinds, every choice of caller / receiver; 2 bystanders hold balances and open allowances toward every pair and the router, allowances are re-randomised mid-history); after EVERY step the complete diff of chain storage is decoded into balance changes of every account: only actor, addressed contract (pair / cw20 Send target / router / factory), route pairs and the receiver may change; a third-party receiver only gains; per denom and per non-LP token the deltas sum to zero and the supply is unchanged; LP supply changes only on a successful provision (by the sum of LP balance changes) or withdrawal (by the burned amount); allowances change only for the sender; non-trivial = a successful step addressing a pair toward which a bystander holds a positive allowance and balance; distinct = hash of the tape";
+pub const RULE: &str = "case = world + history (all operation kinds, every choice of caller / receiver; 2 bystanders hold balances and open allowances toward every pair and the router, allowances are re-randomised mid-history); after EVERY step the complete diff of chain storage is decoded into balance changes of every account: only actor, addressed contract (pair / cw20 Send target / router / factory), route pairs and the receiver may change; a third-party receiver only gains; per denom and per non-LP token the deltas sum to zero and the supply is unchanged; LP supply changes only on a successful provision (by the sum of LP balance changes) or withdrawal (by the burned amount); non-trivial = a successful step addressing a pair toward which a bystander holds a positive allowance and balance; distinct = hash of the tape";
 pub const ASSUMPTIONS: &[&str] = &[
     "cw-multi-test chain model; the decoding of its raw storage layout (bank balances, cw20 balance / token_info / allowance keys) is validated against typed queries by the harness self-check",
     "the reserved LP unit minted to the LP token's own address on a first provision is part of the LP-supply accounting",
